@@ -191,7 +191,34 @@ def post_view(c):
 
 
 def run(case):
+    if case.get("rows") is not None:
+        # journal rows of a resend case: real frames produced by the real encoder under the given numbers
+        from asyncfix.session import FIXSession
+        pre = case["pre"]
+        s = FIXSession(1, pre.get("target", "T"), pre.get("sender", "S"))
+        s.next_num_out = 1
+        codec = Codec(FIXProtocol44())
+        ob, rows = {}, []
+        for r in case["rows"]:
+            ty = r.get("type", "D")
+            try:
+                ty = FMsg(ty)
+            except ValueError:
+                pass
+            m = FIXMessage(ty, {34: r["seq"], 11: "ord-%s" % r["seq"]})
+            if ty == FMsg.SEQUENCERESET:
+                m[36] = r["seq"] + 1
+            if r.get("possdup"):
+                m[43] = "Y"
+                m[122] = r.get("orig", "20200101-00:00:00.000")
+            ob[str(r["seq"])] = codec.encode(m, s, raw_seq_num=True).encode("utf-8").decode("latin-1")
+            rows.append(r["seq"])
+        pre["out_rows"] = rows
+        pre["out_bytes"] = ob
     c = build_conn(case["pre"])
+    declined = {str(r["seq"]) for r in (case.get("rows") or []) if r.get("declined")}
+    if declined:
+        c.replay_filter = lambda m: m.get(34, None) not in declined
     c.faults = case.get("faults")
     c.resumed_at = None
     msg = build_msg(case.get("msg"))
@@ -209,6 +236,8 @@ def run(case):
             return await c.send_msg(msg)
         if op == "process_message":
             return await c._process_message(msg, raw_of(case["msg"]))
+        if op == "process_resend":
+            return await c._process_resend(msg)
         if op == "process_message_twice":
             await c._process_message(msg, raw_of(case["msg"]))
             out["mid"] = post_view(c)
@@ -243,4 +272,10 @@ def run(case):
         out["exc_mro"] = [k.__name__ for k in type(e).__mro__]
     out["post"] = post_view(c)
     out["post"]["resumed_at"] = c.resumed_at
+    if case.get("rows") is not None:
+        rb = {}
+        for k, b in case["pre"].get("out_bytes", {}).items():
+            fv = frame_view(c, b.encode("latin-1"))
+            rb[k] = {"type": fv.get("type"), "52": fv["tags"].get("52"), "122": fv["tags"].get("122"), "tags": fv["tags"]}
+        out["rows_before"] = rb
     return out
